@@ -114,6 +114,21 @@ func genC16(c *Ctx) {
 		}
 	}
 	words("", c.n(4, 7))
+	// deep nesting: balanced and off-by-one words at every depth around the machine word sizes
+	for _, d := range []int{7, 8, 9, 15, 16, 17, 31, 32, 33, 63, 64, 65, 66, 127, 128, 129, 255, 256, 257} {
+		for _, outer := range []string{"[", "("} {
+			for _, inner := range []string{"[", "("} {
+				cl := map[string]string{"[": "]", "(": ")"}
+				open := outer + strings.Repeat(inner, d-1)
+				do(open+strings.Repeat(cl[inner], d-1)+cl[outer], d, "deep-balanced")
+				do(open+strings.Repeat(cl[inner], d), d, "deep-wrong-last-closer")
+				do(open+strings.Repeat(cl[inner], d-1)+cl[inner], d, "deep-wrong-last-closer")
+				other := map[string]string{"[": ")", "(": "]"}
+				do(open+strings.Repeat(cl[inner], d-1)+other[outer], d, "deep-wrong-last-closer")
+				do("a"+open+"b"+strings.Repeat(cl[inner], d-1)+cl[outer], d, "deep-balanced")
+			}
+		}
+	}
 	// a quote followed by each CSS newline (LF, FF, CR, CRLF) before the closing quote: a tokenizer ends the string as
 	// a bad-string at the newline, so what follows is outside any string
 	for _, q := range []string{"\"", "'"} {
